@@ -307,8 +307,12 @@ func (e *env) upgradeOK(rng *rand.Rand, gated string) {
 	if storm {
 		gated = "client"
 	}
+	// "client-swapped": the client stands between its swap and the UPGRADE packet (under the transport lock).
+	// Sends issued now must wait for the lock and leave after UPGRADE; one that got through would reach the
+	// server's probe handler, which closes the candidate
+	swapped := gated == "client-swapped"
 	if gated != "none" {
-		want := map[string]string{"server": "eio.s.upgrade.beforeSwap", "client": "eio.c.upgrade.beforeSwap"}[gated]
+		want := map[string]string{"server": "eio.s.upgrade.beforeSwap", "client": "eio.c.upgrade.beforeSwap", "client-swapped": "eio.c.upgrade.beforeUpgradePacket"}[gated]
 		ctl.HoldIf(func(pt string, k any) bool { return pt == want })
 		ctl.Install()
 		defer gates.Uninstall()
@@ -344,8 +348,19 @@ func (e *env) upgradeOK(rng *rand.Rand, gated string) {
 				}
 				time.Sleep(15 * time.Millisecond)
 			}
+			if swapped {
+				// the client's Sends block on the lock (that is the point): issue them on their own goroutines
+				for i := 0; i < 4; i++ {
+					wg.Add(1)
+					go func() {
+						defer wg.Done()
+						s.cs.Send(msg("u", int(atomic.AddInt64(up, 1)), false))
+					}()
+				}
+				time.Sleep(30 * time.Millisecond)
+			}
 			// a burst in both directions exactly while one side stands before its swap
-			for i := 0; i < 5; i++ {
+			for i := 0; i < 5 && !swapped; i++ {
 				s.cs.Send(msg("u", int(atomic.AddInt64(up, 1)), i%2 == 0))
 				s.ss.Send(msg("d", int(atomic.AddInt64(dn, 1)), i%2 == 1))
 			}
@@ -756,7 +771,7 @@ func TestC14(t *testing.T) {
 func TestC07(t *testing.T) {
 	out := vres.OutDir()
 	res := vres.New()
-	res.Rule = "one case = one real Engine.IO session with numbered text/binary traffic in both directions: polling->websocket upgrades (ungated, or with a burst placed while the server / the client stands before its swap, or with six goroutines sending without pause across the client's swap), failing upgrades (refused, stalled past the upgrade time-out), settled transports; distinct by mode and traffic seed"
+	res.Rule = "one case = one real Engine.IO session with numbered text/binary traffic in both directions: polling->websocket upgrades (ungated, or with a burst placed while the server / the client stands before its swap, or with six goroutines sending without pause across the client's swap, or with Sends issued while the client stands between its swap and the UPGRADE packet), failing upgrades (refused, stalled past the upgrade time-out), settled transports; distinct by mode and traffic seed"
 	vtrace.Install()
 	defer vtrace.Uninstall()
 	vtrace.SetFilter(keep)
@@ -776,6 +791,9 @@ func TestC07(t *testing.T) {
 	}
 	for i := 0; i < vres.Pick(4, 40); i++ {
 		e.upgradeOK(rng, "client-storm")
+	}
+	for i := 0; i < vres.Pick(3, 30); i++ {
+		e.upgradeOK(rng, "client-swapped")
 	}
 	e.upgradeFail(rng, dialRefuse, "refused")
 	e.upgradeFail(rng, dialStall, "stalled")
